@@ -102,6 +102,9 @@ func (p *profile) Canonicalize(u *url.Url) (*url.Url, error) {
 		}
 		if u.Hash() != "" {
 			u.SetHash(decodeEncode(strings.TrimPrefix(u.Hash(), "#"), url.HostPercentEncodeSet))
+		} else {
+			// an empty fragment ("http://h/#") is the same URL as no fragment
+			u.SetHash("")
 		}
 	}
 
